@@ -16,6 +16,7 @@ EXPLANATION = (
     "otherwise a system removed before its turn still runs from the snapshot. At most one execute per iteration; the "
     "snapshot is not mutated in the body. Decides the necessary structure; whether a system added mid-step runs now or "
     "next step is left open by the property.")
+EXPLANATION += (' The scheduler loop is left early (break / return) only on a path that established that the model is no longer running. Premise: all of C01 (priority order, queue holds each registered system once).')
 ASSUMPTIONS = ["G6 open-world callbacks may call any public method", "list iterator index semantics (language fact)"]
 
 
